@@ -15,7 +15,7 @@ def run(tier):
     sc = vlib.scratch()
     cases = run.generate("Gen_Codec", "enc", env={"WHAT": "enc"})
     traces = []
-    for cfg in (["asm", "p32"] if tier == "quick" else ["asm", "p64", "p32"]):
+    for cfg in (["asm", "p32", "p32u"] if tier == "quick" else ["asm", "p64", "p32", "p32u"]):
         out = os.path.join(sc, "enc.%s.trace.ndjson" % cfg)
         run.drive(CODEC, cfg, ["replay", cases, out]); traces.append(out)
     nrand = 60 if tier == "quick" else 1500
